@@ -208,8 +208,9 @@ func (c *chanDataChecker) flush() {
 }
 
 // TestC11ChannelData: (a) all 65536 channel numbers x payload lengths
-// {0..64, 1596..1604, 65528..65535} x 6 content patterns; (b) all payload
-// lengths 0..65535 x 8 boundary numbers x 6 patterns.
+// {0..64, 1596..1604, 65528..65535} (thorough: {0..256, 1490..1604,
+// 65500..65535}) x 6 content patterns; (b) all payload lengths 0..65535 x 8
+// (thorough 16) boundary numbers x 6 patterns.
 func TestC11ChannelData(t *testing.T) {
 	r := rep.New("C11")
 	defer r.Write()
@@ -217,21 +218,26 @@ func TestC11ChannelData(t *testing.T) {
 	pats := payloadPatterns()
 
 	var lens []int
-	for n := 0; n <= 64; n++ {
-		lens = append(lens, n)
+	span := func(lo, hi int) {
+		for n := lo; n <= hi; n++ {
+			lens = append(lens, n)
+		}
 	}
-	for n := 1596; n <= 1604; n++ {
-		lens = append(lens, n)
-	}
-	for n := 65528; n <= 65535; n++ {
-		lens = append(lens, n)
+	numbers := []int{0, 0x3FFF, 0x4000, 0x4001, 0x7FFE, 0x7FFF, 0x8000, 0xFFFF}
+	if rep.Thorough() {
+		span(0, 256)
+		span(1490, 1604)
+		span(65500, 65535)
+		numbers = []int{0, 1, 0x0101, 0x3FFE, 0x3FFF, 0x4000, 0x4001, 0x4FFF, 0x5000, 0x7FFE, 0x7FFF, 0x8000, 0x8001, 0xC000, 0xFFFE, 0xFFFF}
+	} else {
+		span(0, 64)
+		span(1596, 1604)
+		span(65528, 65535)
 	}
 	isListed := make([]bool, 65536)
 	for _, n := range lens {
 		isListed[n] = true
 	}
-	numbers := []int{0, 0x3FFF, 0x4000, 0x4001, 0x7FFE, 0x7FFF, 0x8000, 0xFFFF}
-
 	c := &chanDataChecker{r: r, cls: map[[3]int]int64{}, g: gate{}}
 	defer c.flush()
 	describe := func() any { return c.cur }
